@@ -46,3 +46,35 @@ def cstepD (db : Db) (root : Hash) (s : CStateD) (p : Path) : Except TErr (Optio
         .ok (some ⟨fog', cache', if d.value ≠ [] then (p ++ d.suffix, d.value) :: s.met else s.met⟩)
 
 end PyTrie.HexD
+
+/-! ### `NodeIterator.nodes()` at raw level -/
+namespace PyTrie.HexD
+open PyTrie.Hex PyTrie.Fog
+
+variable (H : Bytes → Bytes)
+
+/-- the loop of `nodes()` over the database: always the left-most unexplored prefix (`nearest_right(())`), `traverse`
+    from the root on a cache miss, `traverse_from(cached parent body, segment)` on a hit; yields `(prefix, annotated node)`.
+    A `TraversedPartialPath` / rejected `explore` ends the sequence (they would propagate); a missing node is an error. -/
+def nodesLoopD (db : Db) (root : Hash) : Nat → Fog → Frontier Item → Except TErr (List (Path × AnnD))
+  | 0, _, _ => .ok []
+  | fuel + 1, fog, cache =>
+    match nearestRight fog [] with
+    | .error _ => .ok []
+    | .ok p =>
+      match walkTraverseD H db root ⟨fog, cache, []⟩ p with
+      | .error e => .error e
+      | .ok (.partialPath _ _ _ _) => .ok []
+      | .ok (.node a) =>
+        match Fog.explore fog p a.subs with
+        | .error _ => .ok []
+        | .ok fog' =>
+          let cache' := if a.subs ≠ [] then Frontier.add cache p a.raw a.subs else Frontier.delete cache p
+          match nodesLoopD db root fuel fog' cache' with
+          | .error e => .error e
+          | .ok rest => .ok ((p, a) :: rest)
+
+def nodesOfD (db : Db) (root : Hash) (fuel : Nat) : Except TErr (List (Path × AnnD)) :=
+  nodesLoopD H db root fuel Fog.init []
+
+end PyTrie.HexD
